@@ -11,6 +11,7 @@ inductive TState where
   | atHead                -- about to acquire the lock
   | running (part : Nat)  -- inside the kernel call for that part
   | done                  -- left the loop
+  | failed                -- the kernel call raised: the worker recorded the exception and ended
 deriving Repr, BEq, DecidableEq
 
 structure QState where
@@ -23,6 +24,7 @@ inductive QAction where
   | take (t : Nat)    -- locked: queue non-empty → get()
   | exit (t : Nat)    -- locked: queue empty → break
   | finish (t : Nat)  -- kernel call returned
+  | fail (t : Nat)    -- kernel call raised (e.g. TypeError for an unusable hyper-parameter)
 deriving Repr, BEq, DecidableEq
 
 def qInit (nParts nThreads : Nat) : QState :=
@@ -42,6 +44,10 @@ def qStep (s : QState) : QAction → Option QState
     match s.threads[t]? with
     | some (.running _) => some ⟨s.queue, s.threads.set t .atHead, s.taken⟩
     | _ => none
+  | .fail t =>
+    match s.threads[t]? with
+    | some (.running _) => some ⟨s.queue, s.threads.set t .failed, s.taken⟩
+    | _ => none
 
 def qRun (s : QState) : List QAction → Option QState
   | [] => some s
@@ -50,7 +56,11 @@ def qRun (s : QState) : List QAction → Option QState
     | none => none
     | some s' => qRun s' as
 
-def qFinal (s : QState) : Bool := s.threads.all (fun st => decide (st = TState.done))
+def qFinal (s : QState) : Bool :=
+  s.threads.all (fun st => decide (st = TState.done) || decide (st = TState.failed))
+
+/-- `if worker_errors: raise worker_errors[0]` after all threads joined (ndl.py) -/
+def qRaises (s : QState) : Bool := s.threads.any (fun st => decide (st = TState.failed))
 
 /-- index of the first action of the trace that the protocol does not allow -/
 def qFirstRejected (s : QState) : List QAction → Option Nat
@@ -64,8 +74,9 @@ def tWeight : TState → Nat
   | .atHead => 1
   | .running _ => 2
   | .done => 0
+  | .failed => 0
 
-/-- termination measure: every transition decreases it by exactly one, so every
+/-- termination measure: every transition decreases it by at least one, so every
     run from `qInit p t` has at most `2 p + t` transitions. -/
 def qMeasure (s : QState) : Nat :=
   2 * s.queue.length + (s.threads.map tWeight).sum
